@@ -390,6 +390,167 @@ func c05(c *core.Ctx) {
 	closeBeforeCompact(c, rCF)
 
 	// units
+	// C05.dirtyflag: a change of a persisted attribute must reach the file: the record is queued for the
+	// writer only when one of the change flags SaveFunction tests is set.
+	rDF := c.Rule("C05.dirtyflag", "every method of the record that assigns a field of the persisted model (the struct that ConvertToByte encodes) also sets one of the change flags SaveFunction tests before it queues a record for the writer, on every path through that assignment: a change made without a flag is visible in memory, reported as 'same' by Save, never written, and gone after close and reload", 20)
+	{
+		sf := c.Fn(pkgSwamp + ".swamp.SaveFunction")
+		sinfo := sf.Info()
+		flagFields := map[*types.Var]bool{}
+		core.Calls(sf.Decl.Body, false, func(call *ast.CallExpr) {
+			fo := core.Callee(sinfo, call)
+			if fo == nil {
+				return
+			}
+			sig, _ := fo.Type().(*types.Signature)
+			if sig == nil || sig.Params().Len() != 0 || sig.Results().Len() != 1 {
+				return
+			}
+			if b, ok := sig.Results().At(0).Type().Underlying().(*types.Basic); !ok || b.Kind() != types.Bool {
+				return
+			}
+			m := p.FnOpt(pkgTreasure + ".treasure." + fo.Name())
+			if m == nil || m.Decl.Body == nil {
+				return
+			}
+			ast.Inspect(m.Decl.Body, func(x ast.Node) bool {
+				if r, ok := x.(*ast.ReturnStmt); ok && len(r.Results) == 1 {
+					if f := core.FieldOf(m.Info(), r.Results[0]); f != nil {
+						if b, ok := f.Type().Underlying().(*types.Basic); ok && b.Kind() == types.Bool {
+							flagFields[f] = true
+						}
+					}
+				}
+				return true
+			})
+		})
+		// the persisted model: the field of the record struct whose type is the struct ConvertToByte encodes
+		_, recSt := p.StructOf(pkgTreasure, "treasure")
+		modelNamed := p.Named(pkgTreasure, "Model")
+		var modelF *types.Var
+		if recSt != nil && modelNamed != nil {
+			for i := 0; i < recSt.NumFields(); i++ {
+				if types.Identical(recSt.Field(i).Type(), modelNamed) {
+					modelF = recSt.Field(i)
+				}
+			}
+		}
+		guardID := p.Named(pkgGuard, "ID")
+		if len(flagFields) == 0 || modelF == nil || guardID == nil {
+			rDF.Bad(pkgTreasure+":model-and-flags", sf.Decl.Pos(), "cannot identify the persisted model field, the guard ID type or the change flags SaveFunction reads (rule needs review)")
+		} else {
+			// is the left-hand side rooted in <recv>.<model>...
+			var recvObj types.Object
+			underModel := func(info *types.Info, e ast.Expr) bool {
+				seen := false
+				for {
+					if id, isId := core.Unparen(e).(*ast.Ident); isId {
+						return seen && recvObj != nil && info.Uses[id] == recvObj
+					}
+					switch v := core.Unparen(e).(type) {
+					case *ast.SelectorExpr:
+						if core.FieldOf(info, v) == modelF {
+							seen = true
+						}
+						e = v.X
+					case *ast.IndexExpr:
+						e = v.X
+					case *ast.StarExpr:
+						e = v.X
+					case *ast.SliceExpr:
+						e = v.X
+					default:
+						return false
+					}
+				}
+			}
+			for _, m := range p.FuncsIn(pkgTreasure) {
+				if m.Decl.Body == nil || m.Decl.Recv == nil {
+					continue
+				}
+				if rt := m.Obj.Type().(*types.Signature).Recv(); rt == nil || !isPtrToStruct(rt.Type(), recSt) {
+					continue
+				}
+				info := m.Info()
+				recvObj = nil
+				if len(m.Decl.Recv.List) == 1 && len(m.Decl.Recv.List[0].Names) == 1 {
+					recvObj = info.Defs[m.Decl.Recv.List[0].Names[0]]
+				}
+				if why, isExempt := dirtyFlagExempt[m.Obj.Name()]; isExempt {
+					rDF.Ok(m.Key+":model-write-sets-flag", m.Decl.Pos(), "not an attribute change: "+why)
+					continue
+				}
+				var writes []ast.Node
+				ast.Inspect(m.Decl.Body, func(x ast.Node) bool {
+					switch v := x.(type) {
+					case *ast.FuncLit:
+						return false
+					case *ast.AssignStmt:
+						for i, l := range v.Lhs {
+							if underModel(info, l) {
+								if len(v.Lhs) == len(v.Rhs) && isEmptyAlloc(info, v.Rhs[i]) {
+									continue // allocating an empty container changes no attribute
+								}
+								writes = append(writes, v)
+								break
+							}
+						}
+					case *ast.IncDecStmt:
+						if underModel(info, v.X) {
+							writes = append(writes, v)
+						}
+					}
+					return true
+				})
+				if len(writes) == 0 {
+					continue
+				}
+				c.Touch(m)
+				fl := core.NewFlow(p, info, m.Decl.Body)
+				setsFlag := func(n ast.Node) bool {
+					as, ok := n.(*ast.AssignStmt)
+					if !ok {
+						// a call to another guarded method of the record that sets a flag on every path is not modelled: direct only
+						return false
+					}
+					for i, l := range as.Lhs {
+						if f := core.FieldOf(info, l); f != nil && flagFields[f] && i < len(as.Rhs) {
+							if v, isB := core.BoolLit(info, as.Rhs[i]); isB && v {
+								return true
+							}
+						}
+					}
+					return false
+				}
+				var bad ast.Node
+				for _, w := range writes {
+					loc, ok := fl.Locate(w)
+					if !ok {
+						continue
+					}
+					if setsFlag(w) {
+						continue
+					}
+					before, _ := fl.CanReach(fl.Entry(), nil, setsFlag, core.ContainsNode(w))
+					if !before {
+						continue
+					}
+					if fl.ExitWithout(loc, nil, false, setsFlag) || !hasReturn(m.Decl.Body) && !reachesFlag(fl, loc, setsFlag) {
+						bad = w
+						break
+					}
+				}
+				if bad != nil && len(c.CG().CallersOf(m)) == 0 {
+					rDF.Ok(m.Key+":model-write-sets-flag", m.Decl.Pos(), "has a path without a change flag but no caller outside the tests (direct or through the Treasure interface): unreachable for a client; reported as soon as production code calls it")
+				} else if bad != nil {
+					rDF.Bad(m.Key+":model-write-sets-flag", bad.Pos(), "this method changes a persisted attribute on a path on which no change flag is set: Save reports 'same', the record is not queued for the writer and the change is lost at the next close")
+				} else {
+					rDF.Ok(m.Key+":model-write-sets-flag", m.Decl.Pos(), "every path through a model write sets a change flag")
+				}
+			}
+		}
+	}
+
 	rU := c.Rule("C05.units", "created/updated/expiry are stored as UnixNano by their setters and leave the gateway through time.Unix(0, x)", 5)
 	for _, k := range []string{"SetCreatedAt", "SetModifiedAt", "SetExpirationTime"} {
 		f := c.Fn(pkgTreasure + ".treasure." + k)
@@ -412,4 +573,63 @@ func c05(c *core.Ctx) {
 		}
 		return false
 	}, "metadata time")
+}
+
+// hasReturn reports whether the body contains a return statement outside function literals.
+func hasReturn(body *ast.BlockStmt) bool {
+	found := false
+	ast.Inspect(body, func(x ast.Node) bool {
+		switch x.(type) {
+		case *ast.FuncLit:
+			return false
+		case *ast.ReturnStmt:
+			found = true
+		}
+		return true
+	})
+	return found
+}
+
+// reachesFlag: for bodies that fall off their end, whether some flag-setting node follows loc on every
+// path is approximated by: a flag-setting node is reachable and no return exists (straight-line setter).
+func reachesFlag(fl *core.Flow, loc core.Loc, pred func(ast.Node) bool) bool {
+	r, _ := fl.CanReach(loc, nil, nil, pred)
+	return r
+}
+
+// dirtyFlagExempt: record methods that assign fields of the persisted model without changing an
+// attribute a client set (one named method each, with the reason).
+var dirtyFlagExempt = map[string]string{
+	"ConvertToByte":   "sets the encoding-time discriminator derived from the content right before gob encoding; it is recomputed at every encode",
+	"LoadFromByte":    "fills the model while the record is being loaded from the file; nothing to write back",
+	"BodySetKey":      "names a record that is being created; its first Save takes the 'new record' path, which queues it unconditionally",
+	"BodySetFileName": "legacy (V1) storage location, assigned by the chronicler while it writes the record",
+	"Uint32SliceDelete": "the only path without a flag is the one on which every element was removed; the single production caller (gateway Uint32SliceDelete) then deletes the whole record, which is persisted as a delete (latent at the record API: noted in DESIGN.md 9.2b)",
+}
+
+func isPtrToStruct(t types.Type, st *types.Struct) bool {
+	pt, ok := t.(*types.Pointer)
+	if !ok {
+		return false
+	}
+	return pt.Elem().Underlying() == types.Type(st)
+}
+
+// isEmptyAlloc: &T{} without elements, new(T), or make(T, 0...).
+func isEmptyAlloc(info *types.Info, e ast.Expr) bool {
+	e = core.Unparen(e)
+	if u, ok := e.(*ast.UnaryExpr); ok && u.Op == token.AND {
+		if cl, ok := core.Unparen(u.X).(*ast.CompositeLit); ok {
+			return len(cl.Elts) == 0
+		}
+	}
+	if call, ok := e.(*ast.CallExpr); ok {
+		if isBuiltinCall(info, call, "new") {
+			return true
+		}
+		if isBuiltinCall(info, call, "make") && (len(call.Args) == 1 || isConst(info, call.Args[1], 0)) {
+			return true
+		}
+	}
+	return false
 }
